@@ -568,9 +568,43 @@ def value_origin(f, ev_or_path, depth=6):
         if a.get('ev') is not None and f.ev(a['ev']) is not None:
             return value_origin(f, f.ev(a['ev']), depth - 1)
         return value_origin(f, a.get('path'), depth - 1) or e
+    if e.k == 'call' and e.get('recv') and re.search(r'::operator [A-Za-z_]', norm(e.get('callee'))) and not norm(e.get('callee')).endswith(('operator bool',)):
+        # a conversion operator: the value is (a view of) its object
+        if e.get('recv_ev') is not None and f.ev(e['recv_ev']) is not None:
+            return value_origin(f, f.ev(e['recv_ev']), depth - 1) or e
+        return value_origin(f, e.get('recv'), depth - 1) or e
     if e.k == 'call' and norm(e.get('callee')) in ('std::move', 'std::forward', 'std::exchange') and e.get('args'):
         a = e['args'][0]
         if a.get('ev') is not None and f.ev(a['ev']) is not None:
             return value_origin(f, f.ev(a['ev']), depth - 1)
         return value_origin(f, a.get('path'), depth - 1) or e
     return e
+
+
+def efield(f, e, which='field'):
+    """declaration of the member an event touches; resolves accesses made through a local reference/pointer alias
+    (auto &q = obj->_queue; q.push_back(..)) to the member the alias was bound to"""
+    v = e.get(which)
+    if v:
+        return norm(v)
+    p = e.get('orecv') or e.get('opath') or e.get('recv') or e.get('path') or ''
+    m = re.match(r'local:(\w+)', p)
+    if not m:
+        return ''
+    d = var_def(f, m.group(1))
+    if d is None or not (d.get('ref') or d.get('ptr')):
+        return ''
+    if d.get('init_field'):
+        return norm(d['init_field'])
+    ie = f.ev(d.get('init_ev')) if d.get('init_ev') is not None else None
+    if ie is not None and ie.get(which):
+        return norm(ie.get(which))
+    # reference bound directly to a member expression: look for the member read/& that feeds the initialiser
+    ini = d.get('init') or ''
+    for x in f.events():
+        if x.get('id', 1 << 30) < d.get('id', -1) and (x.get('path') == ini or x.get('recv') == ini) and x.get(which):
+            return norm(x.get(which))
+    mm = re.search(r'(?:->|\.)(\w+)$', ini)
+    if mm:
+        return '?::' + mm.group(1)
+    return ''
